@@ -42,24 +42,25 @@ func fail(format string, args ...any) {
 
 // Act is one activation of a function body (top-level or inlined).
 type Act struct {
-	u        *Unit
-	fn       *ssa.Function
-	fc       *FuncContract
-	vals     map[ssa.Value]Val
-	depth    int
-	top      *Act
-	entry    *State // state at entry of the top-level function (old)
-	params   []Val
-	free     []Val
-	spec     bool // pure evaluation: no obligations
-	pureFns  map[ssa.Value]bool
-	stack    []*ssa.Function
-	loops    []*loopInfo
-	dom      map[*ssa.BasicBlock]map[*ssa.BasicBlock]bool
-	nilOK    []nilSeen
-	measure0 Term // function-level decreases measure at entry
-	seenObl  map[string]bool
-	qn       *int
+	u            *Unit
+	fn           *ssa.Function
+	fc           *FuncContract
+	vals         map[ssa.Value]Val
+	depth        int
+	top          *Act
+	entry        *State // state at entry of the top-level function (old)
+	params       []Val
+	free         []Val
+	spec         bool // pure evaluation: no obligations
+	pureFns      map[ssa.Value]bool
+	stack        []*ssa.Function
+	loops        []*loopInfo
+	dom          map[*ssa.BasicBlock]map[*ssa.BasicBlock]bool
+	nilOK        []nilSeen
+	measure0     Term // function-level decreases measure at entry
+	seenObl      map[string]bool
+	staticTraced map[string]bool // callback names that are statically called functions (set on the top activation)
+	qn           *int
 }
 
 type nilSeen struct {
@@ -517,6 +518,19 @@ func (a *Act) merge(ins []*State, label string) *State {
 	u := a.u
 	out := ins[0].clone()
 	for _, s := range ins[1:] {
+		if len(s.defers) != len(out.defers) {
+			fail("paths with different deferred calls join: outside the supported subset")
+		}
+		for i := range s.defers {
+			if s.defers[i] != out.defers[i] {
+				fail("paths with different deferred calls join: outside the supported subset")
+			}
+		}
+	}
+	for _, s := range ins[1:] {
+		if s.ghostGen != out.ghostGen {
+			out.ghostGen = u.newHavocGen()
+		}
 		if s.havocGen != out.havocGen {
 			out.havocGen = u.newHavocGen()
 			break
